@@ -4,6 +4,8 @@ compile history: a list of operations on ONE interpreter
    ["compile", source, {"reserved": [names]}?]   define the module from `source` and compile its entity E
                          (optionally with additional_reserved_names)
    ["gc"]                gc.collect()
+   ["define_keep", k, source] / ["setflag", k, bool] / ["compile_mod", k]   define once, toggle its module-level FLAGS["bad"],
+                         compile the SAME class object (again)
    ["define", source]    only define the module (class creation runs CoHDL code as well)
 outcome per compile: {"st": "ok", "sha": ..., "text": ...} | {"st": "rejected", "exc": type, "msg": ..., "site": [file, fn]}
 After every operation the process-global compiler state named in the property anchors is probed
@@ -87,6 +89,9 @@ def compile_one(src, keep_text=True, opts=None):
     return o
 
 
+_MODS = {}
+
+
 def run_compile_history(arg):
     ops = arg["ops"]
     keep = arg.get("keep_text", False)
@@ -95,6 +100,25 @@ def run_compile_history(arg):
     for op in ops:
         if op[0] == "compile":
             o = compile_one(op[1], keep, op[2] if len(op) > 2 else None)
+        elif op[0] == "define_keep":
+            # define a module and keep it: the SAME class objects are compiled again later
+            from vf.gen import render
+
+            _MODS[op[1]] = render.load_module(op[2])
+            o = {"st": "defined"}
+        elif op[0] == "setflag":
+            _MODS[op[1]].FLAGS["bad"] = bool(op[2])
+            o = {"st": "flag"}
+        elif op[0] == "compile_mod":
+            from vf.gen import render
+
+            try:
+                text = render.compile_entity(_MODS[op[1]].E)
+                o = {"st": "ok", "sha": hashlib.sha256(text.encode()).hexdigest()}
+                if keep:
+                    o["text"] = text
+            except render.Rejected as e:
+                o = {"st": "rejected", "exc": e.exc_type, "msg": e.message[:300], "site": [e.exc_type, _kind(e.message)]}
         elif op[0] == "gc":
             gc.collect()
             o = {"st": "gc"}
